@@ -727,7 +727,6 @@ static QINLINE void qt_loopaccum_balance_inner(const size_t       start,
                     acc(out, realrets + ((i - 1) * size));
                 }
             }
-            qt_internal_aligned_free(sync.aligned, QTHREAD_ALIGNMENT_ALIGNED_T);
             break;
         case ALIGNED:
         case NO_SYNC:
